@@ -469,7 +469,7 @@ public:
 			Value p = Value::obj();
 			std::string user = sc.users.empty() ? "nobody" : pick(sc.users, op.a);
 			std::string pw = sc.passwords.empty() ? "nopw" : pick(sc.passwords, op.a);
-			if (op.b % 3 == 1) pw += "X";
+			if (op.b % 3 == 1) pw = "X" + pw; // differs in the first byte: DES crypt() only looks at 8 bytes
 			if (op.b % 3 == 2) user += "-unknown";
 			p.set("user", Value::str(user)); p.set("password", Value::str(pw));
 			send_value(ci, request(op, "authenticate", p), evs); return;
